@@ -30,10 +30,17 @@ UNITS = ["skactiveml.stream._density_uncertainty:StreamDensityBasedAL.query", "s
          "skactiveml.stream.budgetmanager._threshold_budget:DensityBasedSplitBudgetManager"]
 
 
+# configurations used by the chunking scenario only
+EXTRA_NAMES = {
+    "CognitiveDualQueryStrategyFixUn[force_full_budget]": dict(classes=[0, 1], force_full_budget=True),
+    "CognitiveDualQueryStrategyVarUn[force_full_budget]": dict(force_full_budget=True),
+}
+
+
 def _make(d, name, B, seed):
     import skactiveml.stream as st
     K = getattr(st, name.split("[")[0])
-    return K(budget=B, random_state=seed, **NAMES[name])
+    return K(budget=B, random_state=seed, **(NAMES[name] if name in NAMES else EXTRA_NAMES[name]))
 
 
 def _clf(d):
@@ -88,6 +95,52 @@ def sc_accepts(d, name, sizes):
             return
         total += len(idl)
     d.witness(total >= 1, "some_granted")
+
+
+# ---------------------------------------------------------------- C10: chunking invariance at the strategy level
+def sc_chunking(d, name, n, comp):
+    """the stream x_0..x_{n-1} one by one and in the chunks of `comp`: the same instances are granted a label"""
+    B = _budget(d)
+    seed = d.integer("seed", 0, 2 ** 31 - 2)
+    clf = _clf(d)
+    xs = [d.fl(f"x{i}", lo=-4.0, hi=4.0) for i in range(n)]
+
+    def run(sizes):
+        qs = _make(d, name, B, seed)
+        pos, granted = 0, []
+        for m in sizes:
+            ch = d.arr([[xs[pos + i]] for i in range(m)], shape=(m, 1))
+            idl = [int(i) for i in qs.query(ch.copy(), clf)]
+            try:
+                qs.update(ch.copy(), d.arr(idl, dtype=int))
+            except (core.Unencodable, core.PathAbort):
+                raise
+            except (IndexError, ValueError) as e:
+                # update refusing the result of query: `density_cognitive_accepts_own_result`
+                if d.sym:
+                    raise core.PathAbort("update rejected the result of query: " + repr(e)[:80])
+                return None
+            granted += [pos + i for i in idl]
+            pos += m
+        return granted
+    ref = run([1] * n)
+    got = run(list(comp))
+    if ref is None or got is None:
+        return
+    d.prove(ref == got, "decisions_independent_of_chunking", info=dict(one_by_one=ref, chunked=got, chunks=list(comp)))
+    d.witness(len(ref) >= 1, "some_granted")
+
+
+def harnesses_c10_chunking():
+    return [dual_harness("density_cognitive_chunking", sc_chunking,
+                         # (the cognitive strategies without force_full_budget reject their own result for chunks > 1 -
+                         #  the open finding of density_cognitive_accepts_own_result - and cannot be compared)
+                         #  StreamDensityBasedAL's default manager consumes normal draws: the property claims no chunking
+                         #  invariance for it)
+                         lambda tier: [dict(name=nm, n=n, comp=c) for nm in list(NAMES) + list(EXTRA_NAMES)
+                                       if "force_full_budget" in nm for n, c in
+                                       ([(2, [2])] if tier == "quick" else [(2, [2]), (3, [3]), (3, [1, 2])])],
+                         UNITS, required_witnesses=("some_granted",), product_abstraction=False, timeout_ms=20000)]
 
 
 # ---------------------------------------------------------------- C04: strategy-level label bound of StreamDensityBasedAL
